@@ -36,6 +36,7 @@ type c17Case struct {
 	Why            string `json:"why,omitempty"`
 	Defined        bool   `json:"defined,omitempty"`                // the variable is set (possibly to the empty string) in some layer
 	NameInLaterDoc bool   `json:"name_in_later_document,omitempty"` // `name:` sits in a second `---` document of its file
+	RepeatFirst    bool   `json:"repeat_first_env_file,omitempty"`  // the .env files are given as [one, two, one]: the last mention counts
 }
 
 var nameRe = regexp.MustCompile(`^[a-z0-9][a-z0-9_-]*$`)
@@ -60,6 +61,11 @@ func (cs *c17Case) reference(dot1, dot2 map[string]string) {
 	}
 	for k, v := range dot2 {
 		env[k] = v
+	}
+	if cs.RepeatFirst {
+		for k, v := range dot1 {
+			env[k] = v
+		}
 	}
 	for k, v := range cs.OSEnv {
 		env[k] = v
@@ -260,6 +266,7 @@ func buildC17(dir string, explicit int, cpnSrc int, cpnValid bool, fileCfg int, 
 	cs.DotEnv1 = text(dot1)
 	cs.DotEnv2 = text(dot2)
 	cs.NameInLaterDoc = len(emptyTop) > 1 && emptyTop[1]
+	cs.RepeatFirst = len(emptyTop) > 2 && emptyTop[2] && !refFromDot && !defaultEnv && len(dot1) > 0 && len(dot2) > 0
 	cs.reference(dot1, dot2)
 	return cs
 }
@@ -309,6 +316,9 @@ func c17Check(c *Ctx, cs c17Case) *Failure {
 			p := filepath.Join(base, "two.env")
 			_ = os.WriteFile(p, []byte(cs.DotEnv2), 0o644)
 			envFiles = append(envFiles, p)
+			if cs.RepeatFirst {
+				envFiles = append(envFiles, filepath.Join(base, "one.env"))
+			}
 		}
 	}
 	// OS environment (process-global; the checks of one process run sequentially)
@@ -446,6 +456,9 @@ func TestC17(t *testing.T) {
 		for _, ref := range []bool{false, true} {
 			for _, def := range []bool{false, true} {
 				cases = append(cases, buildC17("envdir", 0, 0, true, 0, mask, ref, def, false))
+				if !ref && !def && mask&12 == 12 {
+					cases = append(cases, buildC17("envdir", 0, 0, true, 0, mask, ref, def, false, false, false, true))
+				}
 				if mask&3 != 0 {
 					cases = append(cases, buildC17("envdir", 0, 0, true, 0, mask, ref, def, false, true))
 				}
@@ -465,6 +478,6 @@ func TestC17(t *testing.T) {
 			}
 			cpnSrc := rapid.IntRange(0, 4).Draw(t, "cpn")
 			return buildC17(dir, rapid.IntRange(0, 2).Draw(t, "explicit"), cpnSrc, rapid.Bool().Draw(t, "valid") || cpnSrc == 0 || cpnSrc == 4,
-				rapid.IntRange(0, 6).Draw(t, "files"), rapid.IntRange(0, 15).Draw(t, "mask"), rapid.Bool().Draw(t, "ref"), rapid.Bool().Draw(t, "def"), rapid.Bool().Draw(t, "first"), rapid.IntRange(0, 3).Draw(t, "emptytop") == 0, rapid.IntRange(0, 3).Draw(t, "laterdoc") == 0)
+				rapid.IntRange(0, 6).Draw(t, "files"), rapid.IntRange(0, 15).Draw(t, "mask"), rapid.Bool().Draw(t, "ref"), rapid.Bool().Draw(t, "def"), rapid.Bool().Draw(t, "first"), rapid.IntRange(0, 3).Draw(t, "emptytop") == 0, rapid.IntRange(0, 3).Draw(t, "laterdoc") == 0, rapid.IntRange(0, 2).Draw(t, "repeatfirst") == 0)
 		}, Check: c17Check})
 }
